@@ -78,9 +78,22 @@ class Ref:
         self.traps = []               # (condition, kind) in evaluation order
         self.guard = z3.BoolVal(True)
         self.assume = []              # typing invariants of loaded values (Bool bytes are 0/1, Char are scalars)
+        self.where = []               # parallel to traps: (function id, source line) owning the operation (C14)
+        self.func = 0
+        self.line = 0
 
     def trap(self, cond, kind):
         self.traps.append((z3.And(self.guard, cond), self.K[kind]))
+        self.where.append((self.func, self.line))
+
+    def first_where(self):
+        """(function id, line) of the first trap in evaluation order as BV32 terms (0xFFFFFFFF: none)"""
+        f = BV(0xFFFFFFFF, 32)
+        l = BV(0xFFFFFFFF, 32)
+        for (cond, _), (fn, ln) in reversed(list(zip(self.traps, self.where))):
+            f = z3.If(cond, BV(fn, 32), f)
+            l = z3.If(cond, BV(ln, 32), l)
+        return f, l
 
     def first_trap(self):
         """BV32 term: kind of the first trap in evaluation order, or 0xFFFFFFFF if none"""
@@ -542,8 +555,56 @@ class ArrLen(E):
         return r.arrays[self.arr.name][1]
 
 
+class Let:
+    """statement `let name = expr;` - the value is visible to later statements as Arg(name, ty)"""
+
+    def __init__(self, name, expr):
+        self.name, self.expr, self.kids = name, expr, (expr,)
+        self.line = 0
+
+    def src(self):
+        e = self.expr.src()
+        if e.startswith("(") and e.endswith(")") and not isinstance(self.expr, (If, Match)):
+            e = e[1:-1]
+        return "let %s = %s;" % (self.name, e)
+
+    def ops(self):
+        return self.expr.ops()
+
+    def ev(self, r):
+        r.args[self.name] = self.expr.ev(r)
+
+
+class CallK(E):
+    """call of another generated kernel (which the optimizing back end may inline)"""
+
+    def __init__(self, callee, args):
+        self.callee, self.kids, self.ty = callee, tuple(args), callee.ret
+
+    def src(self):
+        return "%s(%s)" % (self.callee.name, ", ".join(k.src() for k in self.kids))
+
+    def _ops(self, out):
+        out.append("call")
+        out.extend(self.callee.ops())
+
+    def ev(self, r):
+        vals = [k.ev(r) for k in self.kids]
+        saved = (r.args, r.func, r.line)
+        r.args = dict((n, v) for (n, _), v in zip(self.callee.params, vals))
+        r.func = self.callee.func_id
+        for st in self.callee.stmts:
+            r.line = st.line
+            st.ev(r)
+        r.line = self.callee.result_line
+        res = self.callee.result.ev(r) if self.callee.result is not None else None
+        r.args, r.func, r.line = saved
+        return res
+
+
 class ArrSet:
     """statement a(i) = v"""
+    line = 0
 
     def __init__(self, arr, idx, val):
         self.arr, self.kids = arr, (idx, val)
@@ -583,6 +644,9 @@ class Kernel:
         self.result = result          # E or None
         self.family = family          # 'single' | 'tree' | ...
         self.label = label            # operator / description used in keys
+        self.func_id = 0              # C14: id of the source function, lines of the statements
+        self.result_line = 0
+        self.never_inline = True
 
     def source(self):
         ps = ", ".join("%s: %s" % (n, t.name) for n, t in self.params)
@@ -655,9 +719,12 @@ class Setup:
         # arrays of Bool hold 0/1 bytes; Char arrays hold scalar values: not assumed (kernels only move them)
 
     def reference(self):
-        r = Ref(self.traps, self.ref_args, self.env.heap0, self.ref_arrays)
+        r = Ref(self.traps, dict(self.ref_args), self.env.heap0, self.ref_arrays)
+        r.func = self.k.func_id
         for s in self.k.stmts:
+            r.line = s.line
             s.ev(r)
+        r.line = self.k.result_line
         val = self.k.result.ev(r) if self.k.result is not None else None
         if val is not None and self.k.ret is BOOL:
             val = b2bv(val, 8)
